@@ -27,7 +27,7 @@ CLAIMS = {
             "DESIGN 4/C03, 11", TECH + ": class invariant + per-operation triples", FS_NOTE),
     "C04": ("other", "Re-key (_StatePointDict._save) proved for an arbitrary number of live handles: directory moved with all entries, new state point written, no backup left, every handle follows; "
             "DestinationExistsError implies byte-identical state; occupied destination never clobbered. Job.move, Project.clone, the statepoint setter and update_statepoint (conflict => KeyError "
-            "without effect; otherwise the live state point updated) likewise. Copy / pickle protocols are bounded (F22 repaired; known finding F26 for re-keys inside a buffered block).",
+            "without effect; otherwise the live state point updated) likewise. Job's copy / pickle protocol methods (__getstate__, __setstate__, __deepcopy__) are under contract (F22 repaired); whole copy / pickle round trips are bounded (known finding F26 for re-keys inside a buffered block).",
             "DESIGN 4/C04, 11", TECH + ", arbitrary-element loop rule for the handle list", FS_NOTE),
     "C05": ("other", "What signac itself contributes is proved: Job.document hands out one cached BufferedJSONAttrDict bound to this job's document file with write_concern=True, only after the "
             "directory exists; `job.document = v` resets that persistent document exactly once whatever the value; handles are dropped on remove / id change (re-key contract, also checked under C05); signac.buffered & "
